@@ -34,6 +34,7 @@ func main() {
 	verif := flag.String("verif", "/verif", "verification directory (evidence/, replay/, known_findings.json)")
 	out := flag.String("out", "", "directory for evidence/ and replay/ output (default: -verif)")
 	replay := flag.String("replay", "", "replay file: re-run its property and print the matching obligation")
+	debugLocks := flag.String("debug-locks", "", "print lockset call sites of the named function and exit")
 	selftest := flag.Bool("selftest", false, "run the checker on its seeded-fault fixtures")
 	flag.Parse()
 
@@ -101,6 +102,10 @@ func main() {
 	if err != nil {
 		fmt.Printf("CHECK-BROKEN: cannot load %s: %v\n", *repo, err)
 		os.Exit(2)
+	}
+	if *debugLocks != "" {
+		p.Locks().DebugSites(*debugLocks)
+		os.Exit(0)
 	}
 	exit := 0
 	for _, id := range ids {
